@@ -89,9 +89,18 @@ pub struct Op {
     /// the same operation through roto's public Rust API
     pub direct: Option<fn(&[V]) -> V>,
     pub is_list: bool,
+    /// the same built-in under the signature it gets once a recorded defect
+    /// is repaired (used when the primary script no longer compiles)
+    pub alt: Option<Alt>,
     /// StringBuf push sequence: the reference replays the pushes that the
     /// parameter kinds mark as used (`buf_reference`)
     pub buf_seq: bool,
+}
+
+pub struct Alt {
+    pub cover: String,
+    pub script: String,
+    pub bind: fn(&mut Package<NoCtx>, &str) -> Result<Caller, String>,
 }
 
 impl Op {
@@ -141,6 +150,7 @@ impl B {
             direct,
             is_list: name.starts_with("List."),
             buf_seq: false,
+            alt: None,
         });
     }
 }
@@ -169,6 +179,22 @@ fn opt_char(o: Option<char>) -> V {
 }
 fn list_str(l: List<RotoString>) -> V {
     V::List(l.to_vec().into_iter().map(|s| V::Str(s.to_string())).collect())
+}
+
+/// `StringLines::get` returns `Option<char>` on the pinned tree and will
+/// return `Option<RotoString>` once repaired; the harness must build against both
+trait AnyOpt {
+    fn any_opt(self) -> V;
+}
+impl AnyOpt for Option<char> {
+    fn any_opt(self) -> V {
+        opt_char(self)
+    }
+}
+impl AnyOpt for Option<RotoString> {
+    fn any_opt(self) -> V {
+        opt_str(self)
+    }
 }
 
 /// raw lines, terminators included; as many as `str::lines()` yields
@@ -842,8 +868,14 @@ pub fn ops() -> Vec<Op> {
             let l = if i <= usize::MAX as u64 { a[0].s().lines().nth(i as usize) } else { None };
             is(V::Opt(l.map(|x| Box::new(V::str(x)))))
         }),
-        d!(|a| opt_char(rs(&a[0]).lines().get(a[1].u() as usize))),
+        d!(|a| rs(&a[0]).lines().get(a[1].u() as usize).any_opt()),
     );
+    // once the defect is repaired the method returns the line itself
+    b.v.last_mut().unwrap().alt = Some(Alt {
+        cover: "method StringLines.get(self: StringLines, idx: u64) -> Option[String]".into(),
+        script: "fn f(s: String, i: u64) -> String? { s.lines().get(i) }\n".into(),
+        bind: <fn(S, u64) -> Option<S> as Bind>::bind,
+    });
     b.add::<fn(S, u64, u64) -> Option<S>>(
         "StringLines.slice",
         "method",
